@@ -20,3 +20,18 @@ def find_leading_zero_ephemerals(recipient_pub_raw, r, want=2, max_tries=4000):
             if len(out) >= want:
                 break
     return out
+
+
+def find_ephemerals_by_public_x(r, first_byte, want=2, max_tries=4000):
+    """ephemeral scalars whose PUBLIC point's X coordinate starts with the given byte (e.g. 0x04, the value of the
+    uncompressed-point marker, or 0x00): 1 in 256 of all ephemeral keys"""
+    from register_crypto_plugin.ecdsa import NIST256p
+    G = NIST256p.generator
+    out = []
+    for _ in range(max_tries):
+        e = r.randrange(1, P256_N)
+        if (G * e).x() >> 248 == first_byte:
+            out.append(e)
+            if len(out) >= want:
+                break
+    return out
